@@ -366,7 +366,7 @@ func (t *Tree) WalkDeleted(path []string, condition func(interface{}) bool, f fu
 // returns true if the current node is to be removed from the parent and
 // a slice of subpaths ([]string) for all leaves deleted thus far if
 // retDeletedPaths is true. If retDeletedPaths is false, the returned slice
-// of subpaths is nil.
+// of subpaths is nil. The caller holds the write lock of t.
 func (t *Tree) internalDelete(subpath []string, condition func(interface{}) bool, f func(interface{}), retDeletedPaths bool) (bool, [][]string) {
 	if len(subpath) == 0 || subpath[0] == "*" {
 		if len(subpath) != 0 {
@@ -379,7 +379,11 @@ func (t *Tree) internalDelete(subpath []string, condition func(interface{}) bool
 			// progeny leaves.
 			var allLeaves [][]string
 			for k, v := range b {
+				// The node is locked while it is inspected: holders of a Leaf
+				// may update it concurrently.
+				v.mu.Lock()
 				del, leaves := v.internalDelete(subpath, condition, f, retDeletedPaths)
+				v.mu.Unlock()
 				if retDeletedPaths {
 					leaf := []string{k}
 					for _, l := range leaves {
@@ -411,7 +415,9 @@ func (t *Tree) internalDelete(subpath []string, condition func(interface{}) bool
 	if b, ok := t.leafBranch.(branch); ok {
 		// Continue to recurse on subpath while it matches nodes in the Tree.
 		if br := b[subpath[0]]; br != nil {
+			br.mu.Lock()
 			delBr, allLeaves := br.internalDelete(subpath[1:], condition, f, retDeletedPaths)
+			br.mu.Unlock()
 			if retDeletedPaths {
 				leaf := []string{subpath[0]}
 				// Prepend branch node name to all progeny leaves of branch.
